@@ -451,6 +451,13 @@ def _clslabel(name):
 
 
 def _key(sym, m):
+    """Bucket key from the symptom and the request shape.  m is one item's meta or a list of
+    metas (a batch): several different shapes in one request are not attributed to one of them."""
+    if isinstance(m, list):
+        shapes = sorted(set((x["form"], _kindlabel(x["name"]), x["addr"]) for x in m))
+        if len(shapes) != 1:
+            return "C15|%s|batch-of-different-forms" % sym
+        return "C15|%s|%s|%s|%s" % ((sym,) + shapes[0])
     return "C15|%s|%s|%s|%s" % (sym, m["form"], _kindlabel(m["name"]), m["addr"])
 
 
@@ -600,25 +607,26 @@ def run_history(spec):
             if len(conc) > 1:
                 classes.add("batch")
             any_ok = any(s == "SUCCESS" for s in statuses)
-            first = metas[0]
+            forms = sorted(set(m["form"] for m in metas))
+            rform = forms[0] if len(forms) == 1 else "batch-of-different-forms"
 
             # (a) read-only set, every object, successful or not
             for i in range(len(objs)):
                 b, a = snap["api"][i]["attrs"], after["api"][i]["attrs"]
                 if a is None:
-                    bucket(_key("object-unreadable-after-attribute-operation", first),
+                    bucket(_key("object-unreadable-after-attribute-operation", metas),
                            "%s: obj%d GetAttributes -> %s" % (ctxd, i, after["api"][i]["ga"]))
                     continue
                 for n in RO_API:
                     if b.get(n) != a.get(n):
-                        bucket("C15|read-only-changed|%s|%s" % (n, first["form"]),
+                        bucket("C15|read-only-changed|%s|%s" % (n, rform),
                                "%s: obj%d %s %s -> %s" % (ctxd, i, n, b.get(n), a.get(n)))
                 rb, ra = snap["robj"][i]["rows"], after["robj"][i]["rows"]
                 for tab, col, label in RO_RAW:
                     x = [row.get(col) for row in rb.get(tab, [])]
                     y = [row.get(col) for row in ra.get(tab, [])]
                     if x != y:
-                        bucket("C15|read-only-changed|%s|%s" % (label, first["form"]),
+                        bucket("C15|read-only-changed|%s|%s" % (label, rform),
                                "%s: obj%d raw %s.%s %s -> %s" % (ctxd, i, tab, col, x, y))
 
             if not any_ok:
@@ -627,7 +635,7 @@ def run_history(spec):
                 for s_ in statuses:
                     classes.add("result:" + s_.split(":", 1)[-1] if s_ != "SKIPPED" else "result:SKIPPED")
                 if after["api"] != snap["api"] or after["raw"] != snap["raw"]:
-                    bucket(_key("failed-call-changed-store", first),
+                    bucket(_key("failed-call-changed-store", metas),
                            "%s: %s %s" % (ctxd, api_diff(snap, after), raw_diff(snap, after)))
                 failed_before = True
                 snap = after
@@ -729,14 +737,15 @@ def run_history(spec):
                             target_ok(snap["api"][i]["attrs"], a_attrs, c) for c in lenient[i])
                         sym = ("failed-item-change-persisted-by-later-commit" if half
                                else "other-object-changed")
-                        bucket(_key(sym, first),
+                        bucket(_key(sym, [mm for j, mm in enumerate(metas)
+                                          if statuses[j] != "SKIPPED"]),
                                "%s: obj%d (not addressed by a successful item) %s raw %s -> %s" % (
                                    ctxd, i, api_diff(sub_b, sub_a),
                                    _short(snap["robj"][i], 300), _short(after["robj"][i], 300)))
                     continue
                 if i in unknown:
                     continue
-                m = [mm for j, mm in enumerate(metas) if mm["t"] == i and statuses[j] == "SUCCESS"][0]
+                m = [mm for j, mm in enumerate(metas) if mm["t"] == i and statuses[j] == "SUCCESS"]
                 ok = [c for c in cands[i] if target_ok(snap["api"][i]["attrs"], a_attrs, c)]
                 if not ok:
                     half = saw_failed_item and any(
